@@ -9,6 +9,7 @@ pub mod c07;
 pub mod c08;
 pub mod c09;
 pub mod c10;
+pub mod c13;
 pub mod c14;
 pub mod c15;
 pub mod c16;
@@ -34,7 +35,7 @@ pub struct PropDef {
 }
 
 pub fn all() -> Vec<PropDef> {
-    vec![c01::def(), c03::def(), c07::def(), c08::def(), c09::def(), c10::def(), c14::def(), c15::def(), c16::def(), c17::def(), c18::def(), c19::def(), c20::def()]
+    vec![c01::def(), c03::def(), c07::def(), c08::def(), c09::def(), c10::def(), c13::def(), c14::def(), c15::def(), c16::def(), c17::def(), c18::def(), c19::def(), c20::def()]
 }
 
 pub fn find(id: &str) -> Option<PropDef> {
